@@ -104,13 +104,11 @@ Theorem C19_iter_first : forall it it' b, bst (i_root it) -> first it = (it', b)
 Proof. exact first_range_spec. Qed.
 Print Assumptions C19_iter_first.
 
-(* Last(): the last pair below the limit, provided it is not below the start. *)
+(* Last(): the last pair of the map restricted to the range. *)
 Theorem C19_iter_last : forall it it' b, bst (i_root it) -> last it = (it', b) ->
-  current it' = ofilter (irange it)
-                  (match i_limit it with Some l => OMap.seek_lt (elements (i_root it)) l
-                                       | None => OMap.last (elements (i_root it)) end) /\
+  current it' = OMap.last (OMap.range (elements (i_root it)) (i_start it) (i_limit it)) /\
   b = is_some (current it') /\ it_same it it' /\ i_seek it' = None /\ i_new it' = false /\ pos_ok it'.
-Proof. exact last_spec. Qed.
+Proof. exact last_range_spec. Qed.
 Print Assumptions C19_iter_last.
 
 (* Next() from a valid position (on key k, or re-seeking key k after
@@ -156,6 +154,15 @@ Theorem C19_iter_walk : forall ops start limit mut,
 Proof. exact walk_reachable. Qed.
 Print Assumptions C19_iter_walk.
 
+(* ... and the whole backward walk (Prev until exhaustion, starting with Last)
+   yields the same restricted map in descending order. *)
+Theorem C19_iter_walk_back : forall ops start limit mut,
+  let t := root (run_ops ops empty) in
+  collect_prev (S (length (elements t))) (new_iter t start limit mut) =
+  rev (OMap.range (spec_ops ops []) start limit).
+Proof. exact walk_back_reachable. Qed.
+Print Assumptions C19_iter_walk_back.
+
 (* Non-vacuity: a concrete history with a priority tie, an overwrite and
    deletes of a two-child node reaches a 3-key map. *)
 Example C19_nonvacuous :
@@ -165,6 +172,7 @@ Example C19_nonvacuous :
   count (run_ops ops empty) = 3 /\ size (run_ops ops empty) = 3 * 72 + 6 /\
   get (run_ops ops empty) [2;0] = Some [] /\ get (run_ops ops empty) [3] = None /\
   collect_next 4 (new_iter (root (run_ops ops empty)) (Some [1;0]) None false) = [([2], [21]); ([2;0], [])] /\
+  collect_prev 4 (new_iter (root (run_ops ops empty)) None (Some [2;0]) false) = [([2], [21]); ([1], [10])] /\
   (let it := fst (seek_ge (new_iter (root (run_ops ops empty)) None (Some [2;0]) true) [1;5]) in
    current it = Some ([2], [21]) /\ pos_ok it /\ current (fst (next it)) = None /\
    current (fst (prev it)) = Some ([1], [10])).
